@@ -4,7 +4,7 @@ import json, subprocess
 
 CLAIMED = {
   "C03": ("proptest-generated confluent process systems x generated schedules/worker counts/quanta in a deterministic single-threaded simulator over the real Worker/Environment; oracle: metamorphic equality with the baseline schedule + no hang/panic/step error",
-          "Each generated program (fork/join, pipelines, request/reply, await chains, late and repeated awaits, receivers that are spawning when messages arrive, binaries crossing workers) is run under a baseline and 10 generated configurations (1-5 workers, quantum 1..1000, partial-visibility interleavings); entry result and the multiset of per-process results must be identical and no run may hang, panic or return an error from a step. Exploration only.",
+          "Each generated program (fork/join, pipelines, request/reply, await chains, late and repeated awaits, several awaiters of one running process, a select over one finished, some running and some blocked processes, receivers that are spawning when messages arrive, binaries crossing workers) is run under a baseline and 10 generated configurations (1-5 workers, quantum 1..1000, partial-visibility interleavings); entry result and the multiset of per-process results must be identical and no run may hang, panic or return an error from a step. Exploration only.",
           "Trusts the simulator's transport model (FIFO per channel, arbitrary delay — what std::sync::mpsc gives); real OS threads are not exercised. Confluence is by construction of the generator. Quantum via hook H1.",
           "DESIGN.md §4 C03"),
   "C04": ("proptest-generated fan-in scenarios x schedules in the deterministic simulator; oracle: history invariant on the receiver's log (exactly-once, per-sender FIFO, filter phases pure) + termination (an idle system with a blocked process is a lost wake-up)",
@@ -43,8 +43,8 @@ CLAIMED = {
           "Each scenario opens 1-3 mock files in generated processes and moves the handles around; the backend logs every open/use/close with the calling process. The log is judged against an ownership model: a resource is used only by its current owner, it is closed exactly once, after its owner finished and never while the owner is live (unless explicitly closed), every handle is closed by the end, and a non-owner's attempt fails with a runtime error in that process only. Exploration only.",
           "Trusts the simulator's transport model and the mock backend's log. Two recorded findings (a resource whose owner is never awaited is not closed; a stale handle used after its resource was closed reaches the backend) are excluded by construction and re-witnessed each run.",
           "DESIGN.md §4 C14"),
-  "C15": ("proptest-generated failure scenarios (one process fails at a generated point by one of several runtime errors; early, late, cross-worker and chained awaiters; bystanders exchanging messages with it; ill-behaved programs) x schedules in the deterministic simulator; oracle: per-process expected outcome (same error for every awaiter, normal result for every bystander) + no panic / internal error from any worker or environment step",
-          "Every scenario is run under a baseline and generated configurations (1-5 workers, quantum 1..1000, partial-visibility interleavings); each awaiter of the failing process must fail with the identical error, each process that does not await it must reach its model result, and no step may panic, return Err or leave the system idle with a blocked process. Exploration only.",
+  "C15": ("proptest-generated failure scenarios (one process fails at a generated point by one of several runtime errors; early, late, cross-worker and chained awaiters; a former awaiter that gave up on its timeout; an awaiter with a second source that fires later; bystanders exchanging messages with it; ill-behaved programs) x schedules in the deterministic simulator; oracle: per-process expected outcome (same error for every awaiter, normal result for every bystander) + no panic / internal error from any worker or environment step",
+          "Every scenario is run under a baseline and generated configurations (1-5 workers, quantum 1..1000, partial-visibility interleavings); each awaiter of the failing process must fail with the identical error, each process that does not await it must reach its model result — including one whose select on the failing process had already timed out when the failure happened —, an awaiter whose select has a second source must not run on once the failure has reached it, and no step may panic, return Err or leave the system idle with a blocked process. Exploration only.",
           "Trusts the simulator's transport model; worker/environment steps run under catch_unwind with debug assertions on. Scenarios terminate by construction.",
           "DESIGN.md §4 C15"),
   "C16": ("proptest-generated tail-recursive program shapes; oracle: metamorphic space comparison at N vs 50N with profiling on (peak frames / locals / operand stack EQUAL, heap slots bounded by 2x+4) + host-loop result model",
@@ -60,15 +60,15 @@ CLAIMED = {
           "The `quiv compile`/`quiv run` subprocess path is replicated in-process, not executed. Function values compare as opaque (they are also called). Timing- and I/O-dependent harvested programs are discarded. A supervising process turns a death of the check process (stack overflow/abort in the checked code) into a reported case.",
           "DESIGN.md §4 C10"),
   "C13": ("proptest-generated values x construction paths x comparison forms x packaging variants; oracle: structural equality of host models; refs: identity model over simulated workers",
-          "Stream 1 builds a value a, a value b equal to a or changed in exactly one place, and a again along generated construction paths (literal, arithmetic, concatenation/slice/tiling/bit operations so binaries are ropes, views or tiled binaries, fields through variables, spread override, generic and dispatch functions, module import, closures, a round trip through a process) and compares them in eleven forms (pins both ways, repeated binders, literal patterns, nested) in every packaging variant; stream 2 compares closures by definition and captures; stream 3 mints refs in 2-5 processes on 1-4 simulated workers and compares all pairs. Exploration only.",
-          "Values are widened at a union type so the comparison is executed at run time. Nil leaves are excluded from stream 1 (a variable bound to nil is narrowed to non-nil by the compiler — a separate recorded defect); nil equality has a directed probe. Each comparison form runs in its own closure because a match used as a value narrows its operands for the rest of the scope (also recorded).",
+          "Stream 1 builds a value a, a value b equal to a or changed in exactly one place, and a again along generated construction paths (literal, arithmetic, concatenation/slice/tiling/bit operations so binaries are ropes, views or tiled binaries, fields through variables, spread override, generic and dispatch functions, assembly inside a generic function, module import, closures, a round trip through a process) and compares them in fourteen forms (pins both ways, repeated binders incl. type-ascribed occurrences, literal patterns, nested) in every packaging variant and, for a quarter of the cases, spread over a REPL session (definitions, a line that adds code but no tuple shape, then one form per line); stream 2 compares closures by definition and captures; stream 3 mints refs in 2-5 processes on 1-4 simulated workers and compares all pairs. Exploration only.",
+          "Values are widened at a union type so the comparison is executed at run time. Nil leaves are excluded from stream 1 (a variable bound to nil is narrowed to non-nil by the compiler — a separate recorded defect); nil equality has a directed probe. Each comparison form runs in its own closure because a match used as a value narrows its operands for the rest of the scope (also recorded). One recorded finding (a literal pattern on a tuple assembled inside a generic function is decided by the generic definition's tuple id; root cause under C08) is excluded by construction and re-witnessed each run.",
           "DESIGN.md §4 C13"),
   "C08": ("proptest-generated (scrutinee type, test type, enumerated literal values, test form) x packaging variants; oracle: inhabitation model over the generated type trees",
-          "For a generated 't and a related 's (1-3 mutations of 't, or independent) up to 8 first-order values of 't are written as literals and tested with `=('s)y`, `='s`, a typed tuple pattern, or a typed receive after mailing the values in order; an accepted value must be a member of 's, a member must be accepted, the receive must take the earliest member; each program runs as compiled, tree-shaken, after a JSON round trip and merged behind programs that register the same tuple names in other shapes. Exploration only.",
-          "Values are literals, so 'compile-time type contained in the pattern type' coincides with membership; construction through widening routes is exercised by C13. Programs the compiler rejects are discarded (counted).",
+          "For a generated 't and a related 's (1-3 mutations of 't, or independent) up to 8 first-order values of 't are written as literals (in a quarter of the cases tuple values are assembled inside a generic function instead; a third of the programs start with an alias nothing refers to) and tested with `=('s)y`, `='s`, a typed tuple pattern, or a typed receive after mailing the values in order; an accepted value must be a member of 's, a member must be accepted, the receive must take the earliest member; each program runs as compiled, tree-shaken, after a JSON round trip and merged behind programs that register the same tuple names in other shapes. Exploration only.",
+          "Values are literals, so 'compile-time type contained in the pattern type' coincides with membership; construction through widening routes is exercised by C13. Programs the compiler rejects are discarded (counted). Two recorded findings with one root (run-time tests look only at the tuple id a value was constructed with; a tuple assembled inside a generic function matches every pattern of its name and arity) are attributed only to acceptances of non-members that were built that way, and re-witnessed each run.",
           "DESIGN.md §4 C08"),
   "C11": ("proptest-generated REPL histories (steps x line splits x rejected lines x schedules) driven through the real Repl/Environment/Workers in the deterministic simulator; oracle: the same steps compiled and run as one program (per-line values, variable set, variable values) + heap invariants after every worker step",
-          "Histories of 3-13 steps (bindings from earlier bindings, shadowing, four destructuring forms, closures capturing earlier bindings, a type alias and a function over it, imports, a function returning a union and a later run-time type test on a variable holding its result, expression steps incl. the previous result through `~`) are split into lines at generated places with 0-2 rejected lines of eight kinds in between, on a fresh environment or one that has already served an earlier session; every accepted line's value, and after every line the variable names and each variable's value, must equal the single program's; the C06 heap invariants run after every worker step (local compaction, orphan release). Exploration only.",
+          "Histories of 3-13 steps (bindings from earlier bindings, shadowing, four destructuring forms, closures capturing earlier bindings, a type alias and a function over it, imports, a function returning a union and a later run-time type test on a variable holding its result, a generic constructor with a literal and a generically built copy of one value and later equality tests between them, expression steps incl. the previous result through `~`) are split into lines at generated places with 0-2 rejected lines of eight kinds in between, on a fresh environment or one that has already served an earlier session; every accepted line's value, and after every line the variable names and each variable's value, must equal the single program's; the C06 heap invariants run after every worker step (local compaction, orphan release). Exploration only.",
           "The single program is run by the synchronous driver; type aliases are hoisted to its front (a program allows them only there) and start a line in the session. Function values are compared by captured values. Steps never evaluate to nil.",
           "DESIGN.md §4 C11"),
   "C02": ("mutated harvested programs + proptest-generated nested control-flow programs; oracle: differential against an independent reference evaluator of docs/spec.md written over the parser's AST",
@@ -100,7 +100,7 @@ for pid in ALL:
     checks.append({
         "property_id": pid,
         "quick_cmd": f"scripts/check.sh {pid} quick",
-        "thorough_cmd": f"scripts/check.sh {pid} thorough",
+        "thorough_cmd": "scripts/thorough_c18.sh" if pid == "C18" else f"scripts/check.sh {pid} thorough",
         "evidence_file": f"/verif/evidence/{pid}.json",
         "replay_cmd_template": "harness/target/verif/qv replay {path}",
         "engine": "qv",
